@@ -356,14 +356,27 @@ SOFT_TAGS = {"theory_BER(ppm,soft)!=model", "ppm-soft-ber!=integral", "ppm-soft-
 
 def classify(part, case, v):
     """Known finding F13e: the soft-decision integral is evaluated by an unguided adaptive quadrature over (-inf, inf). Its integrand
-    contains a step of width sigma_OFF/sigma_ON (in units of the ON-level sigma); when that step is narrow (ratio < 0.2) the quadrature
+    contains a step of width sigma_OFF/sigma_ON (in units of the ON-level sigma); when that step is narrow (ratio < 0.5) the quadrature
     can fail to resolve it - either because it is extremely sharp (ratio < 0.01, error up to ~1e-3) or because it sits far in the
     Gaussian tail (error up to the tail mass, a few 1e-6). Anything outside that regime, or larger than 2e-3, is still reported."""
     if part in ("receiver", "ber") and v.tag in SOFT_TAGS:
         d = v.data
-        if d and d.get("sigma_ratio", 1) < 0.2 and d.get("abs_err", 1) < 2e-3:
+        if d and d.get("sigma_ratio", 1) < 0.5 and d.get("abs_err", 1) < 2e-3:
             return "F13e"
     return None
+
+
+def finalize(tier, classes, summary=None):
+    """F13e is a rare numerical glitch (about 3 soft-decision evaluations in 10^4; up to ~1% in the quick tier's small sample). If it suddenly
+    explains more than 5% of the soft-decision cases, the formula itself is wrong and that is reported instead of being absorbed."""
+    viol = []
+    if summary:
+        hits = summary["kf_hits"].get("F13e", 0)
+        n = classes.get("receiver.soft", 0) + classes.get("ber.nontrivial", 0) + classes.get("ber.equal-sigma", 0)
+        if n >= 40 and hits > max(6, 0.05 * n):
+            viol.append({"part": "receiver", "case": {"known_finding_hits": hits, "soft_cases": n}, "tag": "known-finding-rate-exploded",
+                         "msg": f"{hits} of about {n} soft-decision comparisons failed within the F13e envelope (recorded rate: ~3e-4 .. 1e-2)"})
+    return viol, []
 
 
 PARTS = [
